@@ -1,6 +1,7 @@
 import SccacheModel.Proofs.TimeMacro
 import SccacheModel.Model.Manifest
 import SccacheModel.Proofs.Recorder
+import SccacheModel.Gen.KeyConsts
 
 /-! # C04 — preprocessor-cache (direct) mode never returns a result for changed inputs
 
@@ -153,5 +154,18 @@ theorem fixed_keeps_leading_dotdot :
 theorem finder_patterns_are_source_patterns :
     TM.patTimestamp = GenC.patTimestamp ∧ TM.patTime = GenC.patTime ∧ TM.patDate = GenC.patDate ∧ TM.maxHay = GenC.maxHaystackLen :=
   TM.patterns_match_source
+
+/-- `entry_key_covers_result_key_env` (fix F-C04-e, over the **regenerated** lists): every environment variable that is part of the
+    result key (`CACHED_ENV_VARS` of `c.rs`) is part of the preprocessor-cache entry key as well.  A hit in preprocessor-cache mode
+    returns a result key that was computed for an earlier request; it is only sound if nothing that enters that key can differ.
+    On the pinned tree `CCC_OVERRIDE_OPTIONS`, `SDKROOT` and the deployment targets were missing from the entry key: with direct mode on,
+    a change of one of them was answered with the object of the old value.  (The include-path variables are in the entry key only —
+    they act through the preprocessed text in the result key.) -/
+theorem entry_key_covers_result_key_env : CK.cCachedEnv.all (fun v => CK.ppCachedEnv.contains v) = true := by decide +kernel
+
+/-- the locale variables are in both lists (fix F-C01-n: diagnostics stored with a result depend on them) -/
+theorem locale_variables_hashed :
+    [[76, 65, 78, 71], [76, 67, 95, 65, 76, 76], [76, 67, 95, 67, 84, 89, 80, 69], [76, 67, 95, 77, 69, 83, 83, 65, 71, 69, 83]].all
+      (fun v => CK.cCachedEnv.contains v && CK.ppCachedEnv.contains v) = true := by decide +kernel
 
 end C04
